@@ -184,9 +184,9 @@ def c05(tier):
         units += shards("VerifC05Order", 5, weight=6, n=2, multi=0, after=0, auto=1, mut=mut)
     # 3 states, only Require and After relations (ordering), at most 2 (thorough 3) entries
     me = 2 if tier == "quick" else 3
-    for mut in (0, 1, 2):
-        for pv in range(8):
-            units.append(U(MACH, "VerifC05Order", weight=6, n=3, schema=-1, pbits=3, pval=pv, maxedges=me, only=2, multi=0, after=1, auto=0, mut=mut))
+    for mut in ((0,) if tier == "quick" else (0, 1, 2)):
+        for pv in range(16):
+            units.append(U(MACH, "VerifC05Order", weight=6, n=3, schema=-1, pbits=4, pval=pv, maxedges=me, only=2, multi=0, after=1, auto=0, mut=mut, novetos=1))
     return {"units": units, "bounds": MACH_BOUNDS, "outside": MACH_OUT + ["After relations over 3 states (known finding c05-after-not-transitive is checked in C05After)"],
             "assumptions": MACH_ASSUME}
 
@@ -226,8 +226,11 @@ def c04(tier):
     units = []
     for mut in (0, 1, 2):
         for nk in (0, 1, 2):
-            units.append(U(MACH, "VerifC04Nested", weight=8, n=2, schema=-1, maxedges=1, mut=mut, nk=nk))
-    return {"units": units, "bounds": dict(MACH_BOUNDS, states="2 user states, schemas with at most one relation / Multi bit", nesting="one mutation (Add/Remove/Set over any called set) issued from inside any one handler call"),
+            # schemas with at most one relation / Multi bit (4 bits per state: Require Add Remove Multi), one unit each
+            for code in [0] + [1 << i for i in range(8)]:
+                units.append(U(MACH, "VerifC04Nested", weight=4, n=2, schema=code, mut=mut, nk=nk, vetos=0 if tier == "quick" else 1))
+    return {"units": units, "bounds": dict(MACH_BOUNDS, states="2 user states, schemas with at most one relation / Multi bit", nesting="one mutation (Add/Remove/Set over any called set) issued from inside any one handler call; "
+                                       "quick tier: handlers never veto, thorough: symbolic veto table"),
             "outside": MACH_OUT + ["N>=2 goroutines racing on the queue lock (CAS): not explored, see DESIGN.md (C04 race clause)", "Eval", "handler timeouts / dispose flushing"],
             "assumptions": MACH_ASSUME}
 
@@ -427,3 +430,19 @@ def c17(tier):
 
 
 PROPS["C17"] = c17
+
+
+def c09(tier):
+    units = [U("./pkg/rpc", "VerifC09Message", weight=2)]
+    return {"units": units,
+            "bounds": {"message": "one pushed MsgSrvUpdate (direct or wrapped in MsgSrvUpdateMuts) derived from any pair of 2-state snapshots with 64-bit clocks and in-range deltas",
+                       "mirror": "in sync with the first snapshot, or drifted on one state by 1..255 ticks (a drift the mod-256 checksum sees)"},
+            "outside": ["convergence under concurrent pushes, mutation replies and full syncs in any order (schedules)", "reconnects, dropped connections, push ticker",
+                        "NetworkMachine.updateClock's own handler / subscription processing (replaced by a recording stub)", "the Sync RPC itself (replaced by a recording stub)",
+                        "mutation results returned through the network machine"],
+            "assumptions": ["client machine = real am.New with a one-state schema (HandshakeDone active); ssC set by the harness (package init is not executed by the engine)",
+                            "overrides: NetworkMachine.updateClock and Client.Sync -> recording stubs; counterexamples that need them cannot be replayed natively and would be reported "
+                            "as inconclusive"]}
+
+
+PROPS["C09"] = c09
